@@ -174,6 +174,18 @@ def drive(chk, build, props_file, gen_modules, keyfn, want, classify, n_quick, n
         hist[o["fw"] + "/" + o["structure"]] = hist.get(o["fw"] + "/" + o["structure"], 0) + 1
         chk.count(key=repr(s) + repr(sorted(info["options"].items(), key=str)), sample=info if len(chk.samples) < 2 else None)
         roots = [("Root", s)]
+        if i >= len(corpus) and r.random() < 0.15:
+            # an explicit PLURAL root name whose singular is the name a nested model gets (-m Items on a document with "item")
+            import inflection
+            nk = [k for x in s for k, v in x.items() if (isinstance(v, dict) and v) or (isinstance(v, list) and v and isinstance(v[0], dict))]
+            if nk:
+                try:
+                    cand = inflection.camelize(inflection.singularize(inflection.underscore(r.choice(nk)))) + "s"
+                    if cand.isidentifier():
+                        roots = [(cand, s)]
+                        info["roots"] = [[cand, s]]
+                except Exception:  # noqa
+                    pass
         if i >= len(corpus) and r.random() < 0.25:
             # a second (and third) root whose explicit name is the name a nested model of the first root gets generated
             import inflection
